@@ -60,6 +60,8 @@ def run(ctx):
             impl_f[line.split(" ", 1)[0]] = line
     f_cmp = f_bad = f_states = 0
     f_viol = []
+    alt_lines = {}
+    l_cmp = []
     rc_bad = sc_bad = fit_n = 0
     evals = judge_bad = 0
     distinct = set()
@@ -72,14 +74,13 @@ def run(ctx):
         if not line.strip():
             continue
         cid, kv = parse_kv_line(line)
+        if cid.endswith("#F"):
+            alt_lines[cid[:-2]] = line.replace("#F", "", 1)
+            continue
         if cid in flines:
             f_cmp += 1
             f_states += line.count(";") + 1
-            if impl_f.get(cid) != line:
-                f_bad += 1
-                if len(f_viol) < 3:
-                    f_viol.append({"case": cid, "line": flines[cid], "model": line[:2000], "impl": (impl_f.get(cid) or "")[:2000],
-                                   "correspondence": "TsVerif.Lex.* / TsVerif.Utf.decodeUtf8 vs lib/src/lexer.c, lib/src/unicode.h"})
+            l_cmp.append((cid, line))
             continue
         if "setter" not in kv:
             continue
@@ -114,6 +115,19 @@ def run(ctx):
                           fingerprint={"lang": lang, "clauses": ",".join(clauses), "cause": c})
         elif acc and int(kv.get("gapleaves", "0") or 0) > 0 and gap_case is None:
             gap_case = payload
+    # the lexer port in two variants (as it is / with fixes/C13-empty-range-boundary.diff): chosen behaviourally on the
+    # scripted runs where the two differ
+    wF = sum(1 for cid, a in l_cmp if cid in alt_lines and impl_f.get(cid) == alt_lines[cid])
+    wA = sum(1 for cid, a in l_cmp if cid in alt_lines and impl_f.get(cid) == a)
+    lex_variant = "fixed" if wF > wA else "asis"
+    ctx.coverage["lexer_empty_range_variant"] = {"chosen": lex_variant, "distinguishing_runs": wF + wA, "fixed_wins": wF, "asis_wins": wA}
+    for cid, a in l_cmp:
+        want = alt_lines.get(cid, a) if lex_variant == "fixed" else a
+        if impl_f.get(cid) != want:
+            f_bad += 1
+            if len(f_viol) < 3:
+                f_viol.append({"case": cid, "line": flines[cid], "model": want[:2000], "impl": (impl_f.get(cid) or "")[:2000],
+                               "correspondence": "TsVerif.Lex.* / TsVerif.Utf.decodeUtf8 vs lib/src/lexer.c, lib/src/unicode.h"})
     for pl in f_viol:   # after the system-level cases, so that concrete failing inputs are listed first
         ctx.violation("corr", "Lean lexer/decoder port and the C code disagree on a scripted run", pl,
                       fingerprint={"level": "function"}, found_input=False)
